@@ -211,14 +211,14 @@ class RandomGen:
         if r < 0.52:
             i = b.node(kind='while', fn=fn)
             N[i - 1]['e'] = self.test(scope)
-            N[i - 1]['body'] = self.block(fn, scope, depth + 1, True, False)
+            N[i - 1]['body'] = self.block(fn, scope, depth + 1, True, infinally)
             if self.loop_else and self.r.random() < 0.3:
                 N[i - 1]['orelse'] = self.block(fn, scope, depth + 1, inloop, infinally)
             return i
         if r < 0.62:
             i = b.node(kind='for', fn=fn, tgt=[self.r.choice(self.names)])
             N[i - 1]['e'] = b.I(self.reads(scope))
-            N[i - 1]['body'] = self.block(fn, scope, depth + 1, True, False)
+            N[i - 1]['body'] = self.block(fn, scope, depth + 1, True, infinally)
             if self.loop_else and self.r.random() < 0.3:
                 N[i - 1]['orelse'] = self.block(fn, scope, depth + 1, inloop, infinally)
             return i
@@ -236,7 +236,7 @@ class RandomGen:
             i = b.node(kind='with', fn=fn, k=b.newk(), name=self.r.choice(['', 'x', 'y']))
             N[i - 1]['body'] = self.block(fn, scope, depth + 1, inloop, infinally)
             return i
-        if r < 0.82 and inloop and not infinally:
+        if r < 0.82 and inloop:
             return b.node(kind=self.r.choice(['break', 'continue']), fn=fn)
         if r < 0.88 and not infinally:
             return b.node(kind='return', fn=fn, e=self.value(scope))
